@@ -2,7 +2,7 @@ SPECIFICATION Spec
 CONSTANTS
   Kinds = {"vmask", "tmask", "geom"}
   Dims = {2, 3}
-  Wide = FALSE
+  Wide = TRUE
   LmCfgs = {0, 1, 2, 3, 4, 5, 6, 7, 8, 9, 10}
 INVARIANT StructureKept
 INVARIANT VecRoundTrip
